@@ -1,6 +1,8 @@
+import re
 from typing import Dict, List
 
 from excel2pycl.src.cell import Cell
+from excel2pycl.src.exceptions import E2PyclParserException
 
 
 class Context:
@@ -936,12 +938,32 @@ class ExcelInPython:
         return self._get_cell_with_cell_preprocessor(
             self._get_cell_function_name(cell)) if cell.uid in self._cell_translations else None
 
+    _MAX_BRACKET_NESTING = 190
+    _TEXT_OR_BRACKET = re.compile(r"""'(?:[^'\\]|\\.)*'|"(?:[^"\\]|\\.)*"|[()\[\]{}]""", re.DOTALL)
+
+    @classmethod
+    def _check_nesting(cls, cell: Cell, code: str) -> None:
+        # python refuses to compile an expression with more than 200 nested brackets: a formula whose code gets there
+        # (a chain of hundreds of comparisons, a run of hundreds of % signs) is rejected while it is translated
+        depth = 0
+        for found in cls._TEXT_OR_BRACKET.finditer(code):
+            bracket = found.group()
+            if bracket in '([{':
+                depth += 1
+                if depth > cls._MAX_BRACKET_NESTING:
+                    raise E2PyclParserException(
+                        f'The formula in the cell {cell} is nested deeper than python can compile')
+            elif bracket in ')]}':
+                depth -= 1
+
     def set_cell(self, cell: Cell, code: str) -> str:
+        self._check_nesting(cell, code)
         self._cell_translations[self._get_cell_function_name(cell)] = code
         return self.get_cell(cell)
 
     def set_sub_cell(self, cell: Cell, code: str) -> str:
         # TODO check if sub expression exists
+        self._check_nesting(cell, code)
         cell_function_name = self._get_cell_function_name(cell)
         if not self._sub_cell_translations.get(cell_function_name):
             self._sub_cell_translations[self._get_cell_function_name(cell)] = []
